@@ -311,6 +311,43 @@ def run(prop, tier):
                                               {"engine": "E3", "flags": pool.flags, "spec": SPEC, "require": req, "history": [e.line() for e in run], "probe": nm},
                                               {"kind": "state-precondition", "model": model, "state": "running", "ooc": 1, "event": nm})
 
+                # ---- regions held open while the thread cools down, pauses, warms up and runs again: the thread row shows the
+                # innermost open region exactly in the thread states its tracking mode names, the CPU row while the thread runs,
+                # and the value is back unchanged after the round trip (one region, and two nested regions of the same timeline)
+                from checks import c06 as _c06
+                steps = [("running", None), ("cooling", "OHc"), ("paused", "OHp"), ("warming", "OHw"), ("running", "OHr")]
+                ents = sorted((k, g) for k, g in ref.enter.items() if g["type"] in _c06.MODE)
+                held = [[k] for k, _ in ents]
+                for k, g in ents:
+                    for k2, g2 in ents:
+                        if k2 != k and g2["type"] == g["type"] and (tier == "deep" or k == ents[0][0] or k2 == ents[0][0]):
+                            held.append([k, k2])
+                nheld = 0
+                for opens in held:
+                    g = ref.enter[opens[-1]]
+                    hist = [X] + [Ev(0, m) for m in opens]
+                    for st, ev in steps:
+                        if ev:
+                            hist = hist + [Ev(0, ev)]
+                        hres, _ = pool.local.expand(hist, [], echo=True)
+                        nheld += 1
+                        if not hres.get("ok"):
+                            break       # this nesting (or the state change inside it) is refused: judged by the nest walk above
+                        disp = {}
+                        for (n, row, tm, ty, val) in pool.local.init_lines + hres["lines"]:
+                            disp[(n, row, ty)] = val
+                        want_t = g["value"] if _c06.mode_ok(_c06.MODE[g["type"]], st) else 0
+                        want_c = g["value"] if st == "running" else 0
+                        got_t, got_c = disp.get(("thread", 1, g["type"]), 0), disp.get(("cpu", 1, g["type"]), 0)
+                        if got_t != want_t or got_c != want_c:
+                            ctx.violation("model %s: region %s (%s) open, thread %s: thread row type %d shows %d (expected %d), CPU row shows %d (expected %d)" % (
+                                model, " > ".join(opens), g["label"], st, g["type"], got_t, want_t, got_c, want_c),
+                                {"engine": "E3", "flags": pool.flags, "spec": SPEC, "require": req, "history": [e.line() for e in hist]},
+                                {"kind": "held-open", "model": model, "opens": opens, "state": st})
+                            break
+                ctx.add(evaluations=nheld, transitions=nheld)
+                ctx.part("held-open-" + model, probes=nheld, stacks=len(held))
+
                 # ---- lint: a trace ending with an open region must be refused with -l
                 tasks, meta = [], []
                 for mcv, g in sorted(ref.enter.items()):
